@@ -18,7 +18,7 @@ pub fn def() -> PropDef {
         nontrivial,
         rule: "mailbox bounded(0..4) (and unbounded control runs), 1-4 concurrent senders using Addr::send / OwningAddr::send / Sender::send / WeakSender::try_send and interval_with timers, mixed with non-waiting traffic (call, ping, interval, try_force_send), handler durations 0..30 virtual ticks or yields, stop / try_stop issued against a full mailbox; x seeded schedules; the backlog bound is evaluated on every prefix of the log; non-trivial = at least one send parked; distinct = distinct order of client-op and callback events",
         needed_probes: &["send_parked", "c12_prefix_checked", "c12_unbounded_send_checked", "c12_stop_with_backlog"],
-        quick_runs: 100_000,
+        quick_runs: 200_000,
         thorough_runs: 2_000_000,
         block: 1,
         flavours: &["tokio"],
